@@ -367,6 +367,9 @@ def prepare(ob):
     return (text, _get_value_cmd(ob))
 
 
+CROSSCHECK = False
+
+
 def discharge_one(ob, budget, prepared):
     """Returns ob with status set.  Proof obligations: unsat => discharged, sat => refuted."""
     if prepared is None:
@@ -393,6 +396,18 @@ def discharge_one(ob, budget, prepared):
             verdict, backend, out = v2, 'cvc5', cv_out
         else:
             out = z3_out + '\n--cvc5--\n' + cv_out
+    if CROSSCHECK and ob.expect == 'unsat' and ob.kind == 'property' and verdict == 'unsat' and backend == 'z3':
+        # thorough tier: every z3 `unsat` of a property-level obligation is re-checked by the other solver; a disagreement is never a pass
+        flags = ['--strings-exp'] if ('String' in text or 'Seq' in text or 'str.' in text or 'seq.' in text) else []
+        cv_out, t = _run([CVC5_BIN, '--lang', 'smt2', '--tlimit=%d' % int(budget * 1000)] + flags, '(set-logic ALL)\n' + text, budget + 2)
+        total += t
+        v2 = _verdict(cv_out)
+        if v2 == 'unsat':
+            backend = 'z3+cvc5'
+        elif v2 == 'sat':
+            verdict, backend, out = 'unknown', 'solver-disagreement', z3_out + '\n--cvc5 says sat--\n' + cv_out
+        else:
+            backend = 'z3 (cvc5: no verdict)'
     ob.time_s = total
     ob.backend = backend
     ob.solver_output = out[-4000:]
